@@ -82,6 +82,10 @@ class C15(Prop):
     def gen(self, seed, tier):
         r = random.Random(seed); ops = []
         lattice = sorted(set(INTS + WIDE + [x + d for x in (0, 23, 24, 255, 256, 65535, 65536, 2**32, 2**63, 2**64 - 1, -2**63, -2**64 + 1, -65536) for d in (-2, -1, 0, 1, 2) if -2**64 <= x + d < 2**64]))
+        # wrap-around aliases of registered values: v ± 2^8 / 2^16 / 2^32 / 2^64 (a lookup through a narrower integer type takes the
+        # alias for the registered value: seeded C15-r4, `match i as i32`)
+        alias = [v + s * 2**w for v in (-7, -35, -65535, -260, -1, 1, 3, 4, 8, 38, 322) for w in (8, 16, 32, 64) for s in (1, -1) if -2**64 <= v + s * 2**w < 2**64]
+        lattice = sorted(set(lattice + alias))
         rnd = [r.randrange(-2**64, 2**64) for _ in range(budget(tier, 300, 6000))]
         def positions(e):
             h = e.hex()
